@@ -65,7 +65,7 @@ def main() -> None:
             files = sorted({l[6:].split("/")[-1] for l in diff.splitlines() if l.startswith("+++ b/")})
             det = "; ".join(f"{k}: {'silent' if v['exit'] == 0 else ('ALARM' if v['exit'] == 1 else 'inconclusive')}"
                             for k, v in m.get("checks", {}).items()) or m.get("apply_error", "")[:80]
-            if m.get("no_longer_applicable"):
+            if m.get("no_longer_applicable") or (m.get("apply_error") and m.get("checks")):
                 det += " - no longer applies to the repaired tree (verdict from before the repair)"
             elif m.get("rebased"):
                 det += " (re-expressed on the repaired tree)"
